@@ -30,6 +30,11 @@ impl SwiftField for Field25NoOption {
 
         // Parse as 35x - up to 35 SWIFT characters
         let authorisation = parse_max_length(input_stripped, 35, "Field 25 authorisation")?;
+        if authorisation.is_empty() {
+            return Err(ParseError::InvalidFormat {
+                message: "Field 25 authorisation cannot be empty".to_string(),
+            });
+        }
         parse_swift_chars(&authorisation, "Field 25 authorisation")?;
 
         Ok(Field25NoOption { authorisation })
@@ -101,6 +106,18 @@ impl SwiftField for Field25A {
 /// Account identification with associated financial institution BIC.
 ///
 /// **Format:** `35x` + `4!a2!a2!c[3!c]` (account + BIC)
+/// Account part of the single-line form of field 25P: 1 to 35 SWIFT characters
+fn parse_account_35(account_part: &str) -> crate::Result<String> {
+    if account_part.is_empty() {
+        return Err(ParseError::InvalidFormat {
+            message: "Field 25P account cannot be empty".to_string(),
+        });
+    }
+    let account = parse_max_length(account_part, 35, "Field 25P account")?;
+    parse_swift_chars(&account, "Field 25P account")?;
+    Ok(account)
+}
+
 #[derive(Debug, Clone, PartialEq, Serialize, Deserialize)]
 #[cfg_attr(feature = "jsonschema", derive(schemars::JsonSchema))]
 pub struct Field25P {
@@ -136,6 +153,11 @@ impl SwiftField for Field25P {
         // Parse account (first line, up to 35 characters)
         let account = parse_max_length(lines[0], 35, "Field 25P account")?;
         parse_swift_chars(&account, "Field 25P account")?;
+        if account.is_empty() {
+            return Err(ParseError::InvalidFormat {
+                message: "Field 25P account cannot be empty".to_string(),
+            });
+        }
 
         // Parse BIC (second line if present, otherwise might be concatenated)
         let bic = if lines.len() > 2 {
@@ -157,7 +179,7 @@ impl SwiftField for Field25P {
                     // Reparse account without BIC
                     let account_part = &input[..input.len() - 11];
                     return Ok(Field25P {
-                        account: parse_max_length(account_part, 35, "Field 25P account")?,
+                        account: parse_account_35(account_part)?,
                         bic,
                     });
                 }
@@ -169,7 +191,7 @@ impl SwiftField for Field25P {
                     // Reparse account without BIC
                     let account_part = &input[..input.len() - 8];
                     return Ok(Field25P {
-                        account: parse_max_length(account_part, 35, "Field 25P account")?,
+                        account: parse_account_35(account_part)?,
                         bic,
                     });
                 }
